@@ -553,9 +553,11 @@ class C14(Spec):
                   "blocking consumer + resolving thread where the outcome is schedule-independent) and by a thread stress suite (one resolver thread per "
                   "asynchronous source, schedule-independent facts checked by the oracle).")
     assumptions = ["the aggregate is destroyed only while it is not being accessed (parked at co_yield, before the first access, or after the end), "
-                   "as generator_aggregator.h states",
+                   "as generator_aggregator.h states, and from a non-coroutine context when sources are in flight (the drain blocks the thread)",
                    "sources read their argument immediately when resumed (the argument is carried by reference)",
-                   "when several sources throw, only the exception examined last is reported (the code keeps one exception_ptr)"]
+                   "when several sources throw, only the exception examined last is reported (the code keeps one exception_ptr); "
+                   "with infinite sources next to a throwing one the exception is never reported because the aggregate never ends",
+                   "a source's asynchronous operation completes at most once and only while the source is suspended on it"]
 
     def suites(self):
         return [AggSuite(), StressSuite()]
